@@ -138,7 +138,12 @@ func rsRun(w *bufio.Writer, window int64, ops []rsOp) (term string, nontrivial b
 		return now
 	}
 	out := func(op string, err, n, hash, code int64, remote bool, fired []int64) {
-		items = append(items, u.Pair(op, u.App("ROut", u.Z(err), u.Z(n), u.Z(hash), u.Z(code), u.B(remote), u.ZList(fired), u.Z(int64(rs.Completed())))))
+		// owed: the frame whose buffer the current frame aliases (-1: none, or a private copy)
+		owed := int64(bufferOf(rs.C03CurrentFrame()))
+		if owed >= 0 && frames[owed].fired > 0 {
+			monfail("alias", fmt.Sprintf("the current frame lives in the buffer of frame %d, which was already put back", owed))
+		}
+		items = append(items, u.Pair(op, u.App("ROut", u.Z(err), u.Z(n), u.Z(hash), u.Z(code), u.B(remote), u.ZList(fired), u.Z(int64(rs.Completed())), u.Z(owed))))
 	}
 	checkData := func(what string, d []byte) {
 		for i := range d {
@@ -846,4 +851,205 @@ func runC03CryptoMgr(w *bufio.Writer, seed uint64, n int, _ []string) {
 		}
 	}
 	fmt.Fprintf(w, "DIST\trandom\t%d\nDIST\twith-data\t%d\n", n, nt)
+}
+
+// ---------------------------------------------------------------------------------------
+// cryptoglue: the real call sites Conn.handleCryptoFrame (manager, drain loop, TLS handler)
+// and Conn.dropEncryptionLevel (Initial / Handshake), per-level byte strings.
+
+func init() { units["cryptoglue"] = runC03CryptoGlue }
+
+func runC03CryptoGlue(w *bufio.Writer, seed uint64, n int, _ []string) {
+	r := u.NewRng(seed)
+	dist := map[string]int{}
+	run := func(failAt int, isClient bool, script []csOp, lv []int, bucket string) {
+		var items []string
+		var desc []string
+		defer func() {
+			if rec := recover(); rec != nil {
+				fmt.Fprintf(w, "MONFAIL\tcryptoglue/panic\tpanic: %v\tfailAt=%d %s\n", rec, failAt, strings.Join(desc, " "))
+			}
+		}()
+		monfail := func(key, d string) {
+			fmt.Fprintf(w, "MONFAIL\tcryptoglue/%s\t%s\tfailAt=%d %s\n", key, d, failAt, strings.Join(desc, " "))
+		}
+		g := quic.C03VerifNewCryptoGlue(isClient, failAt)
+		var delivered, highest [3]int64
+		var finished [3]bool
+		covered := [3]map[int64]bool{{}, {}, {}}
+		count := 0
+		got := false
+		for i, op := range script {
+			l := lv[i]
+			switch op.kind {
+			case 0:
+				off, ln := op.off, op.n
+				if l < 3 && op.off < 0 { // straddle this level's delivered position
+					off = max(delivered[l]+op.off, 0)
+					ln = delivered[l] - off + op.n
+				} else if op.off < 0 {
+					off = 0
+				}
+				desc = append(desc, fmt.Sprintf("crypto@%d[%d,+%d)", l, off, ln))
+				data := make([]byte, ln)
+				for x := range data {
+					data[x] = c03LevelByte(l, off+int64(x))
+				}
+				cls, msgs := g.HandleCryptoFrame(l, data, off)
+				// reference verdict
+				want := int64(0)
+				switch {
+				case l == 3:
+					want = 4
+				case off+ln > 16384:
+					want = 1
+				case finished[l] && off+ln > highest[l]:
+					want = 2
+				}
+				accepted := want == 0 && cls != 1 && cls != 2 && cls != 3 && cls != 4
+				if accepted && l < 3 && !finished[l] {
+					if off+ln > highest[l] {
+						highest[l] = off + ln
+					}
+					for x := off; x < off+ln; x++ {
+						covered[l][x] = true
+					}
+				}
+				var ms []string
+				for _, m := range msgs {
+					if m.Level != l {
+						monfail("level", fmt.Sprintf("a message of level %d was handed to the TLS handler while handling a level %d frame", m.Level, l))
+					}
+					if len(m.Data) == 0 {
+						monfail("empty", "an empty message was handed to the TLS handler")
+					}
+					if m.Level < 3 {
+						for x := range m.Data {
+							if m.Data[x] != c03LevelByte(m.Level, delivered[m.Level]+int64(x)) {
+								monfail("bytes", fmt.Sprintf("level %d: the TLS handler got a wrong byte at stream offset %d", m.Level, delivered[m.Level]+int64(x)))
+								break
+							}
+						}
+						delivered[m.Level] += int64(len(m.Data))
+						got = true
+					}
+					count++
+					ms = append(ms, u.Pair(u.Z(int64(len(m.Data))), u.Z(c03Hash(m.Data))))
+				}
+				handlerFailed := failAt >= 0 && count > failAt
+				if want == 0 && !handlerFailed && cls != 0 && cls != 3 {
+					monfail("reject", fmt.Sprintf("handleCryptoFrame(level %d, [%d,+%d)) returned error class %d, expected none", l, off, ln, cls))
+				}
+				if want != 0 && cls != want {
+					monfail("reject", fmt.Sprintf("handleCryptoFrame(level %d, [%d,+%d)) returned error class %d, expected %d", l, off, ln, cls, want))
+				}
+				if handlerFailed && cls != 5 {
+					monfail("handler-error", "the TLS handler's error was not returned by handleCryptoFrame")
+				}
+				// delivery: after a successful handleCryptoFrame everything contiguous was handed to TLS
+				if cls == 0 && l < 3 && !finished[l] && covered[l][delivered[l]] {
+					monfail("lost", fmt.Sprintf("level %d: byte %d was received but not handed to the TLS handler", l, delivered[l]))
+				}
+				items = append(items, u.Pair(u.App("GFrame", u.Z(int64(l)), u.Z(off), u.Z(ln)), u.App("GOut", u.Z(cls), u.List(ms))))
+				if cls != 0 {
+					goto done
+				}
+			case 2:
+				desc = append(desc, fmt.Sprintf("drop@%d", l))
+				cls := g.DropEncryptionLevel(l)
+				undelivered := false
+				for x := range covered[l] {
+					if x >= delivered[l] {
+						undelivered = true
+					}
+				}
+				if !finished[l] && (cls == 2) != undelivered {
+					monfail("drop", fmt.Sprintf("dropEncryptionLevel(%d) returned class %d with undelivered received data = %v", l, cls, undelivered))
+				}
+				if l == 0 && !g.DroppedInitialKeys() {
+					monfail("drop", "dropping the Initial level did not record droppedInitialKeys")
+				}
+				if cls == 0 {
+					finished[l] = true
+				}
+				items = append(items, u.Pair(u.App("GDrop", u.Z(int64(l))), u.App("GOut", u.Z(cls), "[]")))
+				if cls != 0 {
+					goto done
+				}
+			}
+		}
+	done:
+		k := 0
+		if got {
+			k = 1
+		}
+		fmt.Fprintf(w, "CASE %d %s\n", k, u.App("GCase", u.Z(int64(failAt)), u.List(items)))
+		dist[bucket]++
+	}
+	// fixed table: in order, out of order, straddling retransmission, drop with data behind a gap,
+	// data after drop, unexpected level, the cap, handler failure
+	F := func(l int, off, n int64) (csOp, int) { return csOp{kind: 0, off: off, n: n}, l }
+	D := func(l int) (csOp, int) { return csOp{kind: 2}, l }
+	table := [][]func() (csOp, int){
+		{func() (csOp, int) { return F(0, 0, 100) }, func() (csOp, int) { return F(0, 100, 200) }, func() (csOp, int) { return D(0) }},
+		{func() (csOp, int) { return F(1, 50, 100) }, func() (csOp, int) { return F(1, 0, 50) }, func() (csOp, int) { return D(1) }},
+		{func() (csOp, int) { return F(0, 0, 132) }, func() (csOp, int) { return F(0, 200, 64) }, func() (csOp, int) { return F(0, 129, 132) }},
+		{func() (csOp, int) { return F(1, 0, 10) }, func() (csOp, int) { return F(1, 20, 10) }, func() (csOp, int) { return D(1) }},
+		{func() (csOp, int) { return F(0, 0, 10) }, func() (csOp, int) { return D(0) }, func() (csOp, int) { return F(0, 5, 5) }, func() (csOp, int) { return F(0, 5, 6) }},
+		{func() (csOp, int) { return F(2, 0, 10) }, func() (csOp, int) { return F(3, 0, 10) }},
+		{func() (csOp, int) { return F(2, 16000, 384) }, func() (csOp, int) { return F(2, 16000, 385) }},
+		{func() (csOp, int) { return F(0, 4, 4) }, func() (csOp, int) { return F(1, 0, 3) }, func() (csOp, int) { return F(0, 0, 4) }},
+	}
+	for ti, t := range table {
+		var sc []csOp
+		var lv []int
+		for _, f := range t {
+			o, l := f()
+			sc = append(sc, o)
+			lv = append(lv, l)
+		}
+		run(-1, ti%2 == 0, sc, lv, "table")
+		if ti == 7 {
+			run(1, true, sc, lv, "table")
+		}
+	}
+	for i := 0; i < n; i++ {
+		cr := r.Fork()
+		bounds := []int64{0}
+		for j := 0; j < 5; j++ {
+			bounds = append(bounds, bounds[len(bounds)-1]+c03CellSizes[cr.Intn(7)])
+		}
+		var sc []csOp
+		var lv []int
+		nops := cr.Range(3, 14)
+		for j := 0; j < nops; j++ {
+			l := cr.Intn(3)
+			k := cr.Intn(100)
+			switch {
+			case k < 70:
+				a := cr.Intn(5)
+				if cr.Chance(1, 2) {
+					a = 0
+				}
+				b := cr.Range(a+1, min(5, a+3))
+				op := csOp{kind: 0, off: bounds[a], n: bounds[b] - bounds[a]}
+				if cr.Chance(1, 30) {
+					l = 3
+				}
+				sc, lv = append(sc, op), append(lv, l)
+			case k < 85: // straddling retransmission
+				sc, lv = append(sc, csOp{kind: 0, off: -cr.Pick(1, 3, 43, 64), n: cr.Pick(1, 4, 64, 129)}), append(lv, l)
+			default:
+				sc, lv = append(sc, csOp{kind: 2}), append(lv, cr.Intn(2))
+			}
+		}
+		failAt := -1
+		if cr.Chance(1, 8) {
+			failAt = cr.Intn(4)
+		}
+		run(failAt, cr.Bool(), sc, lv, "random")
+	}
+	for k, v := range dist {
+		fmt.Fprintf(w, "DIST\t%s\t%d\n", k, v)
+	}
 }
